@@ -52,6 +52,15 @@ static inline void set_op(unsigned i, const Operand_& o) {
   ops[i]._signature = o._signature; ops[i]._base_id = o._base_id; ops[i]._data[0] = o._data[0]; ops[i]._data[1] = o._data[1];
 }
 
+// slot I of the operand array: register, memory, immediate, register, memory, immediate; none from NOPS on. (No `%` on the index here: with
+// VERIF_DIVC a remainder is a fresh solver variable and the operand kind would become symbolic.)
+template<unsigned I, unsigned NOPS> static inline void fill_slot(uint32_t bcst) {
+  if constexpr (I >= NOPS) set_op(I, Operand());
+  else if constexpr (I == 0 || I == 3) set_op(I, x86::zmm(nondet_u8() & 31));
+  else if constexpr (I == 1 || I == 4) { x86::Mem m = x86::ptr(x86::rax); if (I == 1) m.set_broadcast(x86::Mem::Broadcast(bcst)); set_op(I, m); }
+  else set_op(I, Imm(int64_t(nondet_u64())));
+}
+
 constexpr uint32_t O(InstOptions o) { return uint32_t(o); }
 constexpr uint32_t VEX = O(InstOptions::kX86_Vex), VEX3 = O(InstOptions::kX86_Vex3), EVEX = O(InstOptions::kX86_Evex), MODRM = O(InstOptions::kX86_ModRM),
   MODMR = O(InstOptions::kX86_ModMR), SHORT = O(InstOptions::kShortForm), LONG = O(InstOptions::kLongForm), XACQ = O(InstOptions::kX86_XAcquire),
@@ -67,19 +76,14 @@ template<unsigned NOPS, uint32_t OPT, uint32_t SYM, unsigned KMODE, unsigned BC,
   uint32_t bcst = 0;
   if (BC == 1) { bcst = nondet_u8() & 3; if (bcst == 0) bcst = 3; }
   if (BC == 2) { bcst = 4 + (nondet_u8() & 3); if (bcst == 7) bcst = 6; }
-  for (unsigned i = 0; i < 6; i++) {
-    if (i >= NOPS) set_op(i, Operand());
-    else if (i % 3 == 0) set_op(i, x86::zmm(nondet_u8() & 31));
-    else if (i % 3 == 1) { x86::Mem m = x86::ptr(x86::rax); if (i == 1) m.set_broadcast(x86::Mem::Broadcast(bcst)); set_op(i, m); }
-    else set_op(i, Imm(int64_t(nondet_u64())));
-  }
+  fill_slot<0, NOPS>(bcst); fill_slot<1, NOPS>(bcst); fill_slot<2, NOPS>(bcst); fill_slot<3, NOPS>(bcst); fill_slot<4, NOPS>(bcst); fill_slot<5, NOPS>(bcst);
   uint32_t opt = OPT;
   if (SYM != 0) opt |= nondet_u32() & SYM;
   uint32_t kreg = 0;
   if (KMODE == 1) { kreg = nondet_u8() & 7; if (kreg == 0) kreg = 7; }
   uint32_t id = x86::Inst::kIdVaddps;
   if (IDMODE == 1) id = nondet_u32() % uint32_t(x86::Inst::_kIdCount);
-  if (IDMODE == 2) { id = nondet_u32(); if (id < uint32_t(x86::Inst::_kIdCount)) id += uint32_t(x86::Inst::_kIdCount); }
+  if (IDMODE == 2) id = uint32_t(x86::Inst::_kIdCount) + nondet_u16();   // 5 decimal digits: a 32-bit decimal parse-back is not decided by SAT in the budget
   BaseInst inst(id, InstOptions(opt));
   if (KMODE == 1) inst._extra_reg.init(x86::k(kreg));
   if (KMODE == 2) inst._extra_reg.init(x86::ecx);
@@ -96,7 +100,7 @@ template<unsigned NOPS, uint32_t OPT, uint32_t SYM, unsigned KMODE, unsigned BC,
   if (IDMODE == 2) {
     V_ASSERT(n_name_calls == 0, "no mnemonic is looked up for an instruction id outside the table");
     c.lit("[InstId=#");
-    V_ASSERT(c.udec<10>() == id, "the number shown for an unknown instruction id is that id");
+    V_ASSERT(c.udec<5>() == id, "the number shown for an unknown instruction id is that id");
     c.ch(']');
   }
   else {
@@ -143,16 +147,31 @@ template<unsigned NOPS, uint32_t OPT, uint32_t SYM, unsigned KMODE, unsigned BC,
   V_WITNESS("x86 line formatted");
 }
 // ---- option words: symbolic within a group, no operands ---------------------------------------------------------------------
-HARNESS h_x86line_w_vex() { line_case<0, 0, VEX | VEX3 | EVEX, 0, 0, 1>(); }
+HARNESS h_x86line_w_vex() { line_case<0, 0, VEX | VEX3 | EVEX, 0, 0, 0>(); }
 HARNESS h_x86line_w_form() { line_case<0, 0, MODRM | MODMR | SHORT | LONG, 0, 0, 0>(); }
 HARNESS h_x86line_w_lock() { line_case<0, 0, XACQ | XREL | LOCK, 0, 0, 0>(); }
 HARNESS h_x86line_w_rep() { line_case<0, 0, REP | REPNE | REX, 0, 0, 0>(); }
 HARNESS h_x86line_w_repreg() { line_case<0, 0, REP | REPNE | REX, 2, 0, 0>(); }
 HARNESS h_x86line_w_all() { line_case<0, ALL_WORDS, 0, 2, 0, 0>(); }
-HARNESS h_x86line_w_none() { line_case<0, 0, 0, 0, 0, 1>(); }
+HARNESS h_x86line_id() { line_case<0, 0, 0, 0, 0, 1>(); }
 HARNESS h_x86line_badid() { line_case<0, 0, 0, 0, 0, 2>(); }
 // ---- operands and decorations: constant options -----------------------------------------------------------------------------
 HARNESS h_x86line_n1() { line_case<1, 0, 0, 0, 0, 0>(); }
 HARNESS h_x86line_n2() { line_case<2, 0, 0, 0, 0, 0>(); }
 HARNESS h_x86line_n3() { line_case<3, 0, 0, 0, 0, 0>(); }
 HARNESS h_x86line_n6() { line_case<6, 0, 0, 0, 0, 0>(); }
+HARNESS h_x86line_bc_lo2() { line_case<2, 0, 0, 0, 1, 0>(); }
+HARNESS h_x86line_bc_hi3() { line_case<3, 0, 0, 0, 2, 0>(); }
+HARNESS h_x86line_k1() { line_case<1, 0, 0, 1, 0, 0>(); }
+HARNESS h_x86line_kz3() { line_case<3, ZMASK, 0, 1, 0, 0>(); }
+HARNESS h_x86line_z2() { line_case<2, ZMASK, 0, 0, 0, 0>(); }
+HARNESS h_x86line_er2() { line_case<2, ER, ERMASK, 0, 0, 0>(); }
+HARNESS h_x86line_sae3() { line_case<3, SAE, ERMASK, 0, 0, 0>(); }
+// every word, {k}{z}, {1toN} and {er} at once, six operands: order of all the pieces (constant lengths, symbolic ids / mask / mode / broadcast)
+HARNESS h_x86line_full6() { line_case<6, ALL_WORDS | ZMASK | ER | SAE, ERMASK, 1, 2, 0>(); }
+// ---- a symbolic piece in front of operands: the later pieces land at a symbolic position -------------------------------------
+HARNESS h_x86line_x_vex3() { line_case<3, 0, VEX | VEX3 | EVEX, 0, 0, 0>(); }
+HARNESS h_x86line_x_rep3() { line_case<3, 0, REP | REPNE | REX, 2, 0, 0>(); }
+HARNESS h_x86line_x_z3() { line_case<3, 0, ZMASK, 1, 0, 0>(); }
+HARNESS h_x86line_x_z1() { line_case<1, 0, ZMASK, 0, 0, 0>(); }
+HARNESS h_x86line_x_er3() { line_case<3, 0, ER | SAE | ERMASK, 0, 0, 0>(); }
